@@ -3,7 +3,7 @@ import z3
 
 from pyvc import trace as T
 from pyvc.ops import FALSE, TRUE
-from pyvc.values import ENUMS, ObjRec, SBool, SElem, SEnum, SNone, SObj, SOpaque, SOpt, SStr, fresh_name
+from pyvc.values import ENUMS, ObjRec, SBool, SElem, SEnum, SNone, SInt, SObj, SOpaque, SOpt, SStr, fresh_name
 from pyvc.verify import Obl, Unit
 
 from .common import STATUS_NAMES, base_registry
@@ -30,7 +30,9 @@ def make_handler(I, handler_qual: str, extra=None):
     rec.fields["repository"] = T.StoreModel.make_repository(I)
     rec.fields["_event_recorder"] = T.StoreModel.make_recorder(I)
     rec.fields["handler_config"] = T.new_symbolic(I, "HandlerConfig", "handler_config")
-    rec.fields["retry_delay"] = SOpaque("retry_delay")
+    rd = z3.Int("retry_delay")  # a timedelta: durations are integers (assumed_stdlib), non-negative
+    I.st.assume(rd >= 0)
+    rec.fields["retry_delay"] = SInt(rd)
     for k, v in (extra(I) if extra else {}).items():
         rec.fields[k] = v
     return h
